@@ -1,59 +1,12 @@
 (* C09, sub-field layer: the accessor descriptors regenerated from nasType (Gen/NasAccessors.v) against the field table
-   of TS 24.501 clause 9 (Spec/TS24501Fields.v).  Definitions only; the statements are proved in Proofs/NasAccProofs.v.
-
-   [field_conforms]: the listed getter reads exactly the bits of the field (and shifts them down to bit 1), the listed
-   setter writes exactly those bits from the low bits of its argument and keeps every other bit; both stay inside the Go
-   container.  The check is structural (index, masks, shifts, bounds); Proofs/NasAccProofs.v turns it into the semantic
-   reading (getter = value of the field, setter = store into the field, for all octet values). *)
+   of TS 24.501 clause 9 (Spec/TS24501Fields.v) with the conformance check of Model/NasAccConform.v, and the check functions
+   of the correspondence stream "accessors".  Definitions only; the statements are proved in Proofs/NasAccProofs.v. *)
 From Coq Require Import NArith Arith Bool String List.
-Require Import NasAcc NasAccessors TS24501Fields.
+Require Import NasAcc NasAccessors TS24501Fields NasAccConform.
 Import ListNotations.
 Open Scope string_scope.
 Open Scope list_scope.
 Open Scope N_scope.
-
-(* bits hi..lo of an octet as a mask *)
-Definition fmask (hi lo:nat) : N := pw hi - pw (lo - 1).
-
-Definition bits_ok (hi lo:nat) : bool := (1 <=? lo)%nat && (lo <=? hi)%nat && (hi <=? 8)%nat.
-(* widths of two-octet fields for which the semantic reading is proved *)
-Definition span_ok (w:nat) : bool := (9 <=? w)%nat && (w <=? 11)%nat.
-
-Definition get_conforms (k:fkind) (g:acc_body) : bool :=
-  match k, g with
-  | FBits o hi lo, AGetBits i mask sh =>
-      (i =? o)%nat && bits_ok hi lo && (mask <? 256) && (sh =? N.of_nat (lo - 1)) &&
-      (N.shiftl (N.shiftr mask sh) sh =? fmask hi lo)
-  | FSpan o w, AGet16 i sh1 j mask2 sh2 =>
-      (i =? o)%nat && (j =? S o)%nat && span_ok w && (sh1 =? N.of_nat (w - 8)) && (sh2 =? N.of_nat (16 - w)) &&
-      (mask2 <? 256) && (N.shiftl (N.shiftr mask2 sh2) sh2 =? fmask 8 (17 - w))
-  | FOctets first count, AGetOctets lo hi n => (lo =? first)%nat && (hi =? first + count)%nat && (n =? count)%nat && (1 <=? count)%nat
-  | FRest first, AGetTail k => (k =? first)%nat
-  | _, _ => false end.
-
-Definition set_conforms (k:fkind) (s:acc_body) : bool :=
-  match k, s with
-  | FBits o hi lo, ASetBits i keep vmask sh _ =>
-      (i =? o)%nat && bits_ok hi lo && (sh =? N.of_nat (lo - 1)) && (vmask =? pw (hi - lo + 1) - 1) && (keep =? 255 - fmask hi lo)
-  | FSpan o w, ASet16 i sh1 m1 j keep2 vmask2 sh2 =>
-      (i =? o)%nat && (j =? S o)%nat && span_ok w && (sh1 =? N.of_nat (w - 8)) && (m1 =? 255) &&
-      (keep2 =? 255 - fmask 8 (17 - w)) && (vmask2 =? pw (w - 8) - 1) && (sh2 =? N.of_nat (16 - w))
-  | FOctets first count, ASetOctets lo hi n => (lo =? first)%nat && (hi =? first + count)%nat && (n =? count)%nat && (1 <=? count)%nat
-  | FRest first, ASetTail k => (k =? first)%nat
-  | _, _ => false end.
-
-(* the field lies inside the Go container *)
-Definition fits (c:container) (k:fkind) : bool :=
-  match c, k with
-  | COctet, FBits o _ _ => (o =? 0)%nat
-  | CArray n, FBits o _ _ => (o <? n)%nat
-  | CArray n, FSpan o _ => (S o <? n)%nat
-  | CArray n, FOctets first count => (first + count <=? n)%nat
-  | CBuffer, _ => true
-  | _, _ => false end.
-
-Definition field_conforms (c:container) (k:fkind) (g s:acc_body) : bool :=
-  fits c k && get_conforms k g && set_conforms k s.
 
 (* ---- differences between the regenerated descriptors and the table *)
 Definition acc_diff := (string * string * string)%type.     (* Go type, field of TS 24.501, what *)
@@ -173,10 +126,8 @@ Definition acc_spec_check (c:acc_case) : bool :=
 (* how many cases the table had something to say about *)
 Definition acc_spec_applies (c:acc_case) : bool := match acc_spec_expect c with Some _ => true | None => false end.
 
-(* what the Python side needs to draw cases: per tabulated field (type, container code, n, kind code, a, b, c, getter, setter)
-   with strings as lists of character codes *)
-Definition codes (s:string) : list N := map (fun a => N.of_nat (Ascii.nat_of_ascii a)) (list_ascii_of_string s).
-Definition fields_dump : list (list N * list N * list N * list N * list N) :=
+(* what the Python side needs to draw cases: per tabulated field (type, [container code; n], [kind code; a; b; c], getter, setter) *)
+Definition fields_dump : list (string * list N * list N * string * string) :=
   flat_map (fun l => match find_acc_type acc_types (ie_go l) with
                      | Some t =>
                          let cc := match at_container t with COctet => [0; 1] | CArray n => [1; N.of_nat n] | CBuffer => [2; 0] | CNone => [3; 0] end in
@@ -186,15 +137,5 @@ Definition fields_dump : list (list N * list N * list N * list N * list N) :=
                                           | FSpan o w => [1; N.of_nat o; N.of_nat w; 0]
                                           | FOctets a b => [2; N.of_nat a; N.of_nat b; 0]
                                           | FRest a => [3; N.of_nat a; 0; 0] end in
-                                (codes (ie_go l), cc, kc, codes (f_get f), codes (f_set f))) (ie_fields l)
+                                (ie_go l, cc, kc, f_get f, f_set f)) (ie_fields l)
                      | None => [] end) ts24501_fields.
-
-Example acc_check_has_teeth_swapped_octets :
-  field_conforms (CArray 2) (FBits 0 8 1) (AGetBits 1 255 0) (ASetBits 1 0 255 0 OpPlus) = false /\
-  field_conforms (CArray 2) (FBits 0 8 1) (AGetBits 0 255 0) (ASetBits 0 0 255 0 OpPlus) = true.
-Proof. vm_compute. split; reflexivity. Qed.
-Example acc_check_has_teeth_wrong_mask :
-  set_conforms (FBits 0 7 5) (ASetBits 0 143 7 4 OpPlus) = true /\ set_conforms (FBits 0 7 5) (ASetBits 0 15 7 4 OpPlus) = false /\
-  set_conforms (FBits 0 7 5) (ASetBits 0 143 15 4 OpPlus) = false /\ get_conforms (FBits 0 7 5) (AGetBits 0 112 4) = true /\
-  get_conforms (FBits 0 7 5) (AGetBits 0 240 4) = false /\ get_conforms (FBits 0 7 5) (AUnrecognised "x") = false.
-Proof. vm_compute. repeat split; reflexivity. Qed.
